@@ -75,10 +75,37 @@ Proof.
   cbn [nonempty forallb andb] in H. apply andb_true_iff in H as [H _]. now exists c, r.
 Qed.
 
+(* strings.TrimSpace leaves a string without white space alone *)
+Lemma trim_nospace s : forallb (fun c => negb (is_space c)) s = true -> trim_space s = s.
+Proof.
+  intros H. unfold trim_space.
+  assert (D : forall l, forallb (fun c => negb (is_space c)) l = true -> drop_space l = l).
+  { intros [|c r] Hl; [reflexivity|]. cbn [forallb] in Hl. apply andb_true_iff in Hl as [Hc _].
+    apply negb_true_iff in Hc. cbn [drop_space]. now rewrite Hc. }
+  rewrite (D s H). rewrite D; [apply rev_involutive|].
+  rewrite forallb_forall in *. intros x Hx. apply H. now apply in_rev.
+Qed.
+
+Lemma is_digit_nospace c : is_digit c = true -> is_space c = false.
+Proof.
+  unfold is_digit. intros H. apply andb_true_iff in H as [H1 H2]. apply N.leb_le in H1, H2.
+  unfold is_space, space_tab. cbn [existsb].
+  repeat match goal with |- context [N.eqb c ?k] =>
+    let E := fresh in assert (E : N.eqb c k = false) by (apply N.eqb_neq; lia); rewrite E; clear E end.
+  reflexivity.
+Qed.
+
+Lemma nospace_utoa n : forallb (fun c => negb (is_space c)) (utoa n) = true.
+Proof.
+  pose proof (all_digits_utoa n) as H. unfold all_digits in H.
+  apply andb_true_iff in H as [_ H]. rewrite forallb_forall in H |- *.
+  intros x Hx. now rewrite (is_digit_nospace x (H x Hx)).
+Qed.
+
 Lemma parse_uint_field_utoa bits n : n < 2 ^ bits -> parse_uint_field bits (utoa n) = Some n.
 Proof.
   intros H. unfold parse_uint_field. destruct (utoa_head n) as (c & r & E & _).
-  rewrite E, <- E. now apply parse_uint_utoa.
+  rewrite E, <- E. rewrite (trim_nospace _ (nospace_utoa n)). now apply parse_uint_utoa.
 Qed.
 
 Lemma parse_int_itoa bits z :
@@ -107,12 +134,19 @@ Proof.
   destruct (utoa_head (Z.to_N z)) as (c & r & E & _). rewrite E. discriminate.
 Qed.
 
+Lemma nospace_itoa z : forallb (fun c => negb (is_space c)) (itoa z) = true.
+Proof.
+  unfold itoa. destruct (z <? 0)%Z; [|apply nospace_utoa].
+  cbn [forallb]. now rewrite nospace_utoa.
+Qed.
+
 Lemma parse_int_field_itoa bits z :
   (- Z.of_N (2 ^ (bits - 1)) <= z < Z.of_N (2 ^ (bits - 1)))%Z ->
   parse_int_field bits (itoa z) = Some z.
 Proof.
   intros H. unfold parse_int_field. pose proof (itoa_nonempty z) as Hn.
-  destruct (itoa z) as [|c r] eqn:E; [congruence|]. rewrite <- E. now apply parse_int_itoa.
+  destruct (itoa z) as [|c r] eqn:E; [congruence|]. rewrite <- E.
+  rewrite (trim_nospace _ (nospace_itoa z)). now apply parse_int_itoa.
 Qed.
 
 Lemma is_digit_plain c : is_digit c = true -> plain_char c = true.
@@ -146,7 +180,7 @@ Proof. apply plain_all_legal, plain_utoa. Qed.
 Lemma all_legal_itoa z : all_legal (itoa z) = true.
 Proof. apply plain_all_legal, plain_itoa. Qed.
 
-Lemma parse_bool_btoa b : parse_bool (btoa b) = Some b.
+Lemma parse_bool_btoa b : parse_bool_field (btoa b) = Some b.
 Proof. destruct b; reflexivity. Qed.
 
 Global Opaque utoa itoa.
@@ -349,7 +383,7 @@ Lemma err_attrs_type code ty :
 Proof. destruct (code =? 0)%Z; destruct ty; reflexivity. Qed.
 
 Lemma err_children code ty reason text :
-  (isempty reason || (name_ok reason && negb (str_eqb reason s_text))) = true ->
+  str_eqb reason s_text = false ->
   fold_left err_child
     ((match reason with [] => [] | rc :: rr => [XE ns_stanzas (rc :: rr) [] []] end)
      ++ (match text with [] => [] | tc :: tx => [XE ns_stanzas s_text [] (text_raw (tc :: tx))] end))
@@ -361,8 +395,7 @@ Proof.
   { intros e. cbn [err_child]. rewrite texts_text_raw. reflexivity. }
   destruct reason as [|rc rr].
   - destruct text as [|tc tx]; [reflexivity|]. cbn [app fold_left]. now rewrite Htext.
-  - cbn [isempty orb] in Hr. apply andb_true_iff in Hr as [_ Ht].
-    apply negb_true_iff in Ht.
+  - pose proof Hr as Ht.
     assert (Hreason : forall e, e_text e = [] ->
                                 err_child e (XE ns_stanzas (rc :: rr) [] [])
                                 = mkErr (e_code e) (e_type e) (rc :: rr) (e_text e)).
@@ -396,15 +429,16 @@ Proof.
   apply Z.leb_le in H. apply Z.ltb_lt in H3.
   destruct e as [code ty reason text]. cbn [e_code e_type e_reason e_text] in *.
   unfold err_tree, dec_err. cbn [e_code e_type e_reason e_text zero_err].
+  apply negb_true_iff in H0.
   rewrite err_attrs_code by lia. rewrite err_attrs_type. now rewrite err_children.
 Qed.
 
 Lemma name_ok_not_xmlns_code : name_ok s_code = true /\ str_eqb s_code xmlns_s = false.
 Proof. split; reflexivity. Qed.
 
-Lemma wf_err_tree e : wf_err e = true -> wf_tree [] (err_tree e) = true.
+Lemma wf_err_tree e : wf_err e = true -> reason_ok e = true -> wf_tree [] (err_tree e) = true.
 Proof.
-  unfold wf_err. intros H. repeat (apply andb_true_iff in H as [H ?]).
+  unfold wf_err, reason_ok. intros H Hname. repeat (apply andb_true_iff in H as [H ?]).
   destruct e as [code ty reason text]. cbn [e_code e_type e_reason e_text] in *.
   unfold err_tree. cbn [e_code e_type e_reason e_text]. rewrite wf_tree_XE.
   assert (Ha : forallb attr_ok ((if (code =? 0)%Z then [] else [(s_code, itoa code)]) ++ opt_attr s_type ty) = true).
@@ -416,9 +450,8 @@ Proof.
             ((match reason with [] => [] | rc :: rr => [XE ns_stanzas (rc :: rr) [] []] end)
              ++ (match text with [] => [] | tc :: tx => [XE ns_stanzas s_text [] (text_raw (tc :: tx))] end)) = true).
   { rewrite forallb_app. apply andb_true_iff. split.
-    - destruct reason as [|rc rr]; [reflexivity|]. cbn [isempty orb] in H0.
-      apply andb_true_iff in H0 as [H0 _].
-      cbn [forallb]. rewrite wf_tree_XE, H0. reflexivity.
+    - destruct reason as [|rc rr]; [reflexivity|]. cbn [isempty orb] in Hname.
+      cbn [forallb]. rewrite wf_tree_XE, Hname. reflexivity.
     - destruct text as [|tc tx]; [reflexivity|]. cbn [forallb]. rewrite wf_tree_XE.
       rewrite (wf_text_raw ns_stanzas (tc :: tx) H1). reflexivity. }
   rewrite Hk, no_adj_elems; [reflexivity|].
@@ -663,7 +696,7 @@ Lemma fits64_lt n : fits64 n = true -> n < 2 ^ 64.
 Proof. unfold fits64. apply N.ltb_lt. Qed.
 
 Lemma failed_conditions_names : forallb name_ok failed_conditions = true.
-Proof. reflexivity. Qed.
+Proof. vm_compute. reflexivity. Qed.
 
 Lemma failed_condition_name c : existsb (str_eqb c) failed_conditions = true -> name_ok c = true.
 Proof.
@@ -720,10 +753,11 @@ Qed.
 Lemma is_elem_opt_elem name s : forallb is_elem (opt_elem name s) = true.
 Proof. now destruct s. Qed.
 
-Lemma enc_err_wf e : wf_err e = true -> forallb (wf_tree []) (enc_err e) = true /\ forallb is_elem (enc_err e) = true.
+Lemma enc_err_wf e : wf_err e = true -> reason_ok e = true ->
+  forallb (wf_tree []) (enc_err e) = true /\ forallb is_elem (enc_err e) = true.
 Proof.
-  intros H. destruct (enc_err_cases e) as [(_ & -> & _)|(_ & ->)]; [auto|].
-  cbn [forallb]. now rewrite (wf_err_tree e H).
+  intros H Hn. destruct (enc_err_cases e) as [(_ & -> & _)|(_ & ->)]; [auto|].
+  cbn [forallb]. now rewrite (wf_err_tree e H Hn).
 Qed.
 
 Lemma wf_doc_stanza name a kids :
@@ -743,16 +777,16 @@ Lemma attr_ok_opt_uint k o :
   name_ok k = true -> str_eqb k xmlns_s = false -> forallb attr_ok (opt_uint_attr k o) = true.
 Proof. intros H1 H2. destruct o; [|reflexivity]. cbn [opt_uint_attr forallb]. now rewrite attr_ok_utoa. Qed.
 
-Theorem wf_enc reg v : wf_value reg v = true -> wf_doc (enc v) = true.
+Theorem wf_enc reg v : wf_value reg v = true -> marshals v = true -> wf_doc (enc v) = true.
 Proof.
-  intros Hwf. destruct v; cbn [wf_value enc] in *.
+  intros Hwf Hm. destruct v; cbn [wf_value enc marshals] in *.
   - unfold wf_message in Hwf. do 5 (apply andb_true_iff in Hwf as [Hwf ?]).
-    destruct (wf_ext_parts reg 1 _ H) as (_ & He & Hw). destruct (enc_err_wf _ H0) as (E1 & E2).
+    destruct (wf_ext_parts reg 1 _ H) as (_ & He & Hw). destruct (enc_err_wf _ H0 Hm) as (E1 & E2).
     unfold enc_message. apply wf_doc_stanza; [reflexivity|now apply wf_enc_attrs| |].
     + now rewrite !forallb_app, !is_elem_opt_elem, E2, He.
     + rewrite !forallb_app, !wf_opt_elem, E1, Hw by (auto; reflexivity). reflexivity.
   - unfold wf_presence in Hwf. do 5 (apply andb_true_iff in Hwf as [Hwf ?]).
-    destruct (wf_ext_parts reg 0 _ H) as (_ & He & Hw). destruct (enc_err_wf _ H0) as (E1 & E2).
+    destruct (wf_ext_parts reg 0 _ H) as (_ & He & Hw). destruct (enc_err_wf _ H0 Hm) as (E1 & E2).
     unfold enc_presence. apply wf_doc_stanza; [reflexivity|now apply wf_enc_attrs| |].
     + rewrite !forallb_app, !is_elem_opt_elem, E2, He. now destruct (p_priority p =? 0)%Z.
     + rewrite !forallb_app, !wf_opt_elem, E1, Hw by (auto; reflexivity).
@@ -768,14 +802,14 @@ Proof.
         unfold wf_ext, wf_doc in Hx. apply andb_true_iff in Hx as [Hx _]. apply andb_true_iff in Hx as [Hx _].
         cbn [opt_list forallb]. now rewrite Hx.
       * destruct (i_error i) as [e|]; [|reflexivity]. apply andb_true_iff in H0 as [He _].
-        now destruct (enc_err_wf _ He).
+        now destruct (enc_err_wf _ He Hm).
       * destruct (i_any i) as [n|]; [|reflexivity]. cbn [opt_list forallb]. now rewrite enc_node_is_elem.
     + rewrite !forallb_app. apply andb_true_iff. split; [|apply andb_true_iff; split].
       * destruct (i_payload i) as [t|]; [|reflexivity]. apply andb_true_iff in H1 as [Hx _].
         unfold wf_ext, wf_doc in Hx. apply andb_true_iff in Hx as [Hx _]. apply andb_true_iff in Hx as [_ Hx].
         cbn [opt_list forallb]. now rewrite Hx.
       * destruct (i_error i) as [e|]; [|reflexivity]. apply andb_true_iff in H0 as [He _].
-        now destruct (enc_err_wf _ He).
+        now destruct (enc_err_wf _ He Hm).
       * destruct (i_any i) as [n|]; [|reflexivity]. destruct n as [ns l na c ks].
         apply andb_true_iff in H as [H _]. apply andb_true_iff in H as [H _].
         cbn [opt_list forallb]. now rewrite (wf_enc_node _ [] H).
@@ -800,10 +834,10 @@ Proof.
     rewrite attr_ok_opt_uint by reflexivity.
     destruct cond as [|c0 cr]; [reflexivity|]. cbn [isempty orb] in Hc.
     cbn [forallb]. rewrite wf_tree_XE, (failed_condition_name _ Hc). reflexivity.
-  - apply andb_true_iff in Hwf as [Hm Hp].
+  - apply andb_true_iff in Hwf as [Hmech Hp].
     unfold wf_doc. cbn [is_elem is_text negb andb]. rewrite wf_tree_XE.
     rewrite (wf_text_esc _ val Hp).
-    cbn [forallb]. unfold attr_ok at 1. cbn [fst snd]. rewrite Hm.
+    cbn [forallb]. unfold attr_ok at 1. cbn [fst snd]. rewrite Hmech.
     destruct val; reflexivity.
   - unfold wf_doc. cbn [is_elem is_text negb andb]. rewrite wf_tree_XE.
     rewrite (wf_text_esc _ val Hwf). destruct val; reflexivity.
@@ -841,22 +875,236 @@ Proof.
   - rewrite !skeleton_XE. f_equal. f_equal. now destruct val.
 Qed.
 
-(* ================= the C01 statements ================= *)
-Theorem roundtrip_core reg v :
-  reg_ok reg = true -> wf_value reg v = true ->
-  dec reg (vtype_of v) (enc v) = Some v /\
-  (exists t, parse (print (enc v)) = Some t /\
-             exists v', dec reg (vtype_of v) t = Some v' /\ v' = v /\ print (enc v') = print (enc v)).
+(* ================= characters outside the XML range ================= *)
+Lemma esc_char_sanitize nl c : esc_char nl (sanitize c) = esc_char nl c.
 Proof.
-  intros Hreg Hwf. pose proof (dec_enc reg v Hreg Hwf) as Hd. split; [exact Hd|].
-  exists (enc v). split; [apply parse_print; now apply (wf_enc reg)|].
-  exists v. auto.
+  unfold sanitize. destruct (legal c) eqn:L; [reflexivity|].
+  transitivity [replacement]; [now destruct nl|].
+  unfold esc_char.
+  repeat match goal with |- context [c =? ?k] =>
+    let E := fresh "E" in destruct (c =? k) eqn:E;
+      [apply N.eqb_eq in E; subst c; discriminate L|] end.
+  now rewrite L.
+Qed.
+
+Lemma escape_san nl s : escape nl (san s) = escape nl s.
+Proof.
+  unfold escape, san. induction s as [|c s IH]; [reflexivity|].
+  cbn [map flat_map]. now rewrite esc_char_sanitize, IH.
+Qed.
+
+Lemma has_nl_san s : has_nl (san s) = has_nl s.
+Proof.
+  unfold has_nl, has_char, san. induction s as [|c s IH]; [reflexivity|].
+  cbn [map existsb]. rewrite IH. f_equal. unfold sanitize.
+  destruct (legal c) eqn:L; [reflexivity|].
+  destruct (10 =? c) eqn:E; [apply N.eqb_eq in E; subst c; discriminate L|reflexivity].
+Qed.
+
+Lemma san_cons c s : san (c :: s) = sanitize c :: san s.
+Proof. reflexivity. Qed.
+
+Lemma blank_str_san s : blank_str (san s) = blank_str s.
+Proof. now destruct s. Qed.
+
+(* ---- the printed form, piece by piece ---- *)
+Definition pa (a : list (str * str)) : str := flat_map print_attr a.
+Definition pk (ks : list xtree) : str := flat_map print ks.
+
+Lemma print_toks_app a b : print_toks (a ++ b) = print_toks a ++ print_toks b.
+Proof. unfold print_toks. apply flat_map_app. Qed.
+
+Lemma print_toks_kids ks : print_toks (flat_map toks ks) = pk ks.
+Proof.
+  induction ks as [|k ks IH]; [reflexivity|].
+  cbn [flat_map]. rewrite print_toks_app, IH. reflexivity.
+Qed.
+
+Lemma print_XE ns l a ks :
+  print (XE ns l a ks)
+  = (60 :: l ++ pa (raw_attrs ns []) ++ pa a ++ [62]) ++ pk ks ++ 60 :: 47 :: l ++ [62].
+Proof.
+  unfold print. rewrite toks_XE. unfold print_toks at 1. cbn [flat_map].
+  fold (print_toks (flat_map toks ks ++ [TE l])). rewrite print_toks_app, print_toks_kids.
+  cbn [print_tok print_toks flat_map]. rewrite app_nil_r. f_equal. unfold pa.
+  destruct ns; cbn [raw_attrs flat_map app]; [reflexivity|].
+  now rewrite app_nil_r, <- !app_assoc.
+Qed.
+
+Lemma print_XE_congr ns l a a' ks ks' :
+  pa a = pa a' -> pk ks = pk ks' -> print (XE ns l a ks) = print (XE ns l a' ks').
+Proof. intros Ha Hk. now rewrite !print_XE, Ha, Hk. Qed.
+
+Lemma pk_app a b : pk (a ++ b) = pk a ++ pk b.
+Proof. apply flat_map_app. Qed.
+Lemma pa_app a b : pa (a ++ b) = pa a ++ pa b.
+Proof. apply flat_map_app. Qed.
+
+Lemma pa_opt_attr_san k v : pa (opt_attr k (san v)) = pa (opt_attr k v).
+Proof.
+  destruct v as [|c v]; [reflexivity|]. unfold pa. rewrite san_cons. cbn [opt_attr flat_map].
+  rewrite <- san_cons. unfold print_attr. cbn [fst snd]. now rewrite escape_san.
+Qed.
+
+Lemma pa_enc_attrs_san a : pa (enc_attrs (san_attrs a)) = pa (enc_attrs a).
+Proof.
+  unfold enc_attrs, san_attrs. cbn [a_type a_id a_from a_to a_lang].
+  now rewrite !pa_app, !pa_opt_attr_san.
+Qed.
+
+Lemma print_XT_san raw s : print (XT raw (san s)) = print (XT raw s).
+Proof. unfold print. cbn [toks print_toks flat_map print_tok]. now rewrite escape_san. Qed.
+
+Lemma pk_opt_elem_san name s : pk (opt_elem name (san s)) = pk (opt_elem name s).
+Proof.
+  destruct s as [|c s]; [reflexivity|]. unfold pk. rewrite san_cons. cbn [opt_elem flat_map].
+  rewrite <- san_cons. rewrite !app_nil_r. apply print_XE_congr; [reflexivity|].
+  unfold pk. cbn [flat_map]. now rewrite print_XT_san.
+Qed.
+
+Lemma pk_text_raw_san s : pk (text_raw (san s)) = pk (text_raw s).
+Proof.
+  destruct s as [|c s]; [reflexivity|]. unfold pk. rewrite san_cons. cbn [text_raw flat_map].
+  rewrite <- san_cons. now rewrite has_nl_san, print_XT_san.
+Qed.
+
+Lemma pk_text_esc_san s : pk (text_esc (san s)) = pk (text_esc s).
+Proof.
+  destruct s as [|c s]; [reflexivity|]. unfold pk. rewrite san_cons. cbn [text_esc flat_map].
+  rewrite <- san_cons. now rewrite print_XT_san.
+Qed.
+
+Lemma isempty_san s : isempty (san s) = isempty s.
+Proof. now destruct s. Qed.
+
+Lemma pk_enc_err_san e : pk (enc_err (san_err e)) = pk (enc_err e).
+Proof.
+  destruct e as [code ty reason text]. unfold enc_err, err_empty, san_err.
+  cbn [e_code e_type e_reason e_text]. rewrite !isempty_san.
+  destruct ((code =? 0)%Z && isempty ty && isempty reason && isempty text); [reflexivity|].
+  unfold pk. cbn [flat_map]. rewrite !app_nil_r. apply print_XE_congr.
+  - now rewrite !pa_app, pa_opt_attr_san.
+  - rewrite !pk_app. f_equal.
+    destruct text as [|tc tx]; [reflexivity|]. rewrite san_cons at 1. cbv iota. rewrite <- san_cons.
+    unfold pk. cbn [flat_map]. rewrite !app_nil_r. apply print_XE_congr; [reflexivity|].
+    apply pk_text_raw_san.
+Qed.
+
+Lemma san_node_eq ns l a c ks :
+  san_node (Node ns l a c ks) =
+  Node ns l (map (fun kv => (fst kv, san (snd kv))) a) (san c) (map san_node ks).
+Proof. reflexivity. Qed.
+
+Lemma pa_san_attrs a : pa (map (fun kv : str * str => (fst kv, san (snd kv))) a) = pa a.
+Proof.
+  unfold pa. induction a as [|[k v] a IH]; [reflexivity|]. cbn [map flat_map fst snd].
+  rewrite IH. f_equal. unfold print_attr. cbn [fst snd]. now rewrite escape_san.
+Qed.
+
+Lemma print_san_node n : print (enc_node (san_node n)) = print (enc_node n).
+Proof.
+  induction n as [ns l a c ks IH] using node_ind'.
+  rewrite san_node_eq, !enc_node_eq. apply print_XE_congr; [apply pa_san_attrs|].
+  rewrite !pk_app, pk_text_raw_san. f_equal.
+  induction IH as [|k ks Hk _ IHk]; [reflexivity|].
+  unfold pk in *. cbn [map flat_map]. now rewrite Hk, IHk.
+Qed.
+
+(* what is written for v is what is written for sanitize_value v *)
+Theorem print_sanitize_value v : print (enc (sanitize_value v)) = print (enc v).
+Proof.
+  destruct v; cbn [sanitize_value enc]; try reflexivity.
+  - unfold enc_message. cbn [m_attrs m_subject m_body m_thread m_error m_exts].
+    apply print_XE_congr; [apply pa_enc_attrs_san|].
+    now rewrite !pk_app, !pk_opt_elem_san, pk_enc_err_san.
+  - unfold enc_presence. cbn [p_attrs p_show p_status p_priority p_error p_exts].
+    apply print_XE_congr; [apply pa_enc_attrs_san|].
+    now rewrite !pk_app, !pk_opt_elem_san, pk_enc_err_san.
+  - unfold enc_iq. cbn [i_attrs i_payload i_error i_any].
+    apply print_XE_congr; [apply pa_enc_attrs_san|].
+    rewrite !pk_app. f_equal. f_equal.
+    + destruct (i_error i); [apply pk_enc_err_san|reflexivity].
+    + destruct (i_any i) as [n|]; [|reflexivity]. unfold pk. cbn [option_map opt_list flat_map].
+      now rewrite print_san_node.
+  - apply print_san_node.
+  - apply print_XE_congr; [|reflexivity]. now rewrite !pa_app, !pa_opt_attr_san.
+  - apply print_XE_congr; [|reflexivity]. now rewrite !pa_app, !pa_opt_attr_san.
+  - apply print_XE_congr; [|reflexivity]. now rewrite !pa_app, !pa_opt_attr_san.
+  - apply print_XE_congr; [|apply pk_text_esc_san].
+    unfold pa. cbn [flat_map]. unfold print_attr. cbn [fst snd]. now rewrite escape_san.
+  - apply print_XE_congr; [reflexivity|apply pk_text_esc_san].
+Qed.
+
+Lemma marshals_sanitize v : marshals (sanitize_value v) = marshals v.
+Proof.
+  destruct v; try reflexivity. cbn [sanitize_value marshals i_error].
+  now destruct (i_error i).
+Qed.
+
+Lemma blank_san_node n : blank_node (san_node n) = blank_node n.
+Proof.
+  induction n as [ns l a c ks IH] using node_ind'.
+  rewrite san_node_eq, !blank_node_eq, blank_str_san, map_map. f_equal.
+  rewrite map_map. induction IH as [|k ks Hk _ IHk]; [reflexivity|].
+  cbn [map]. now rewrite Hk, IHk.
+Qed.
+
+Lemma blank_san_err e : blank_err (san_err e) = blank_err e.
+Proof. destruct e. unfold blank_err, san_err. cbn. now rewrite !blank_str_san. Qed.
+
+Lemma blank_sanitize v : blank (sanitize_value v) = blank v.
+Proof.
+  destruct v; cbn [sanitize_value blank]; try reflexivity.
+  - unfold blank_attrs, san_attrs. cbn. now rewrite !blank_str_san, blank_san_err.
+  - unfold blank_attrs, san_attrs. cbn. now rewrite !blank_str_san, blank_san_err.
+  - unfold blank_attrs, san_attrs. cbn. rewrite !blank_str_san. f_equal. f_equal.
+    + destruct (i_error i); [cbn [option_map]; now rewrite blank_san_err|reflexivity].
+    + destruct (i_any i); [cbn [option_map]; now rewrite blank_san_node|reflexivity].
+  - now rewrite blank_san_node.
+  - now rewrite !blank_str_san.
+  - now rewrite !blank_str_san.
+  - now rewrite !blank_str_san.
+  - now rewrite !blank_str_san.
+  - now rewrite !blank_str_san.
+Qed.
+
+(* ================= the C01 statements ================= *)
+(* through the bytes: what xml.Marshal writes is read back as the tree enc v, that decodes
+   to v, and encoding the decoded value gives the same bytes again *)
+Theorem roundtrip_wire reg v :
+  reg_ok reg = true -> wf_value reg v = true -> marshals v = true ->
+  exists t v', parse (print (enc v)) = Some t /\ dec reg (vtype_of v) t = Some v'
+               /\ v' = v /\ print (enc v') = print (enc v).
+Proof.
+  intros Hreg Hwf Hm. exists (enc v), v.
+  split; [apply parse_print; now apply (wf_enc reg)|].
+  split; [now apply dec_enc|]. auto.
 Qed.
 
 Theorem skeleton_text_independent reg v v' :
-  wf_value reg v = true -> blank v = blank v' ->
+  wf_value reg v = true -> marshals v = true -> blank v = blank v' ->
   option_map skeleton (parse (print (enc v))) = Some (skeleton (enc v')).
 Proof.
-  intros Hwf Hb. rewrite (parse_print _ (wf_enc reg v Hwf)). cbn [option_map].
+  intros Hwf Hm Hb. rewrite (parse_print _ (wf_enc reg v Hwf Hm)). cbn [option_map].
   now rewrite <- (skeleton_blank v), Hb, skeleton_blank.
 Qed.
+
+(* the same for text with characters outside the XML range: the domain condition is asked of
+   the value with those characters replaced, which is the value the bytes are written for *)
+Theorem skeleton_text_independent_any reg v v' :
+  wf_value reg (sanitize_value v) = true -> marshals v = true -> blank v = blank v' ->
+  option_map skeleton (parse (print (enc v))) = Some (skeleton (enc v')).
+Proof.
+  intros Hwf Hm Hb. rewrite <- print_sanitize_value.
+  apply (skeleton_text_independent reg); [exact Hwf|now rewrite marshals_sanitize|].
+  now rewrite blank_sanitize.
+Qed.
+
+(* whether xml.Marshal refuses a value does not depend on its texts *)
+Lemma marshals_blank v : marshals (blank v) = marshals v.
+Proof.
+  destruct v; try reflexivity. cbn [blank marshals i_error]. now destruct (i_error i).
+Qed.
+
+Theorem marshals_blank_eq v v' : blank v = blank v' -> marshals v = marshals v'.
+Proof. intros H. now rewrite <- (marshals_blank v), H, marshals_blank. Qed.
